@@ -678,7 +678,7 @@ static int finalize_tls_conf(struct xcm_socket *s)
        avoid unnessesariy syscalls in case the user has passed all
        needed filenames as socket attributes */
 
-    char ns[NAME_MAX];
+    char ns[NAME_MAX + 1];
 
     if (ut_self_net_ns(ns) < 0) {
 	LOG_TLS_NET_NS_LOOKUP_FAILED(s, errno);
